@@ -217,7 +217,7 @@ def check_class(col, key, candles, stream_text):
         col.fail("recalculate-differs", f"{key}/recalculate", "hexital.core.indicator.Indicator.recalculate",
                  f"recalculate() {'raised ' + repr(exc) if exc else 'changed the readings: ' + first_diff(batch, got)}", spec)
     # 3 purge
-    for how in ("Indicator.purge", "Hexital.purge", "Hexital.remove_indicator"):
+    for how in ("Indicator.purge", "Hexital.purge", "Hexital.remove_indicator", "Hexital.purge()"):
         col.tick()
         cs = gen.clone(candles)
         plant(cs, name)
@@ -228,7 +228,7 @@ def check_class(col, key, candles, stream_text):
         if exc is not None:
             break
         depths = helper_depths(ind)
-        op = {"Indicator.purge": ind.purge, "Hexital.purge": lambda: hexi.purge(name),
+        op = {"Indicator.purge": ind.purge, "Hexital.purge": lambda: hexi.purge(name), "Hexital.purge()": lambda: hexi.purge(),
               "Hexital.remove_indicator": lambda: hexi.remove_indicator(name)}[how]
         _, exc = call(op)
         now = entries(hexi.candles())
